@@ -432,7 +432,7 @@ def run(tier):
     eff = {}
     for name, depth in plan:
         drv = DRIVERS[name]
-        seen, info = hist.search(drv, rep, depth, merge_check=True)
+        seen, info = hist.search(drv, rep, depth, merge_check=("full" if tier == "thorough" else True))
         for k, v in info.get("obs_stats", {}).items():
             eff[k] = eff.get(k, 0) + v
         hs = sorted((h for h, _ in seen.values()), key=len)
